@@ -58,6 +58,7 @@ def main(argv=None):
         print("HARNESS-ERROR property=%s runs_failed=%d first_index=%s seed=%s\n%s"
               % (prop, len(agg["harness"]), idx, seed, detail), flush=True)
         status = 2
+    harness_only = status == 2      # so far the only reason for exit 2 is a run in which the machinery itself raised
     # ---- determinism self-test: same seeds, fresh interpreter, other hash seed, one worker
     selftest = {"runs": 0, "mismatch": 0, "hashseeds": [0, 1]}
     selftest_bad = []
@@ -151,9 +152,16 @@ def main(argv=None):
             replays.append(path)
             status = max(status, 1) if status != 2 else 2
         else:
+            harness_only = False
             print("HARNESS-ERROR property=%s minimised plan %s did not reproduce in a fresh interpreter "
                   "(exit %d)\n%s" % (prop, path, p.returncode, (p.stdout + p.stderr)[-1500:]), flush=True)
             status = 2
+    if status == 2 and harness_only and replays:
+        # violations were confirmed by fresh replays; the runs in which the machinery raised are then most plausibly the
+        # same defect reaching harness arithmetic (a NaN in a reference computation): the violations are the verdict
+        print("note: %d run(s) raised inside the machinery; %d violation class(es) were confirmed by fresh replays and take "
+              "precedence" % (len(agg["harness"]), len(replays)), flush=True)
+        status = 1
     if selftest_bad:
         if replays:
             print("note: determinism self-test: digests of runs %s differ between the pool and a fresh interpreter; violations were "
